@@ -59,20 +59,24 @@ class ParseOutput:
     def source(self):
         return self.dedented_source_string.split("\n")[:-1]
 
+    def _cut(self, ll, start=None, end=None):
+        # ast column offsets count UTF-8 bytes, not characters
+        return self.source[ll].encode("utf-8")[start:end].decode("utf-8")
+
     def get_string(self, node):
         string = ""
         for ll in range(node.lineno - 1, node.end_lineno):
             if ll == node.lineno - 1 == node.end_lineno - 1:
                 string += _remove_spaces_until_character(
-                    self.source[ll][node.col_offset : node.end_col_offset]
+                    self._cut(ll, node.col_offset, node.end_col_offset)
                 )
             elif ll == node.lineno - 1:
                 string += _remove_spaces_until_character(
-                    self.source[ll][node.col_offset :]
+                    self._cut(ll, node.col_offset)
                 )
             elif ll == node.end_lineno - 1:
                 string += _remove_spaces_until_character(
-                    self.source[ll][: node.end_col_offset]
+                    self._cut(ll, None, node.end_col_offset)
                 )
             else:
                 string += _remove_spaces_until_character(self.source[ll])
